@@ -1,4 +1,4 @@
-CONSTANTS MaxRecs = 3 MaxLen = 2 Edits = FALSE
+CONSTANTS MaxRecs = 2 MaxLen = 2 Edits = TRUE
 INIT Init
 NEXT Next
 INVARIANT InvContent
